@@ -1108,3 +1108,45 @@ Definition dim_ambiguous (ss : schemas) : bool :=
                                | _ => false
                                end)
                      (s_entrytype s :: map (fun ko => o_type (snd ko)) (s_objects s))) ss.
+
+(* ---------- sharing left behind by a pass ----------
+   The models are functional.  Three Go passes leave payload pointers SHARED between two places
+   of their result; a later pass that rewrites payloads in place then changes both places at
+   once (or visits the shared part twice), which a functional model of that later pass cannot
+   reproduce.  These predicates recognise (conservatively) the inputs on which that happens:
+   - FlattenDisjunctions copies the branches of a referenced top-level disjunction;
+   - DisjunctionToType stores the disjunction in a hint of the struct whose fields are its branches;
+   - RemoveIntersections builds a struct on the field slice of the struct it aliases. *)
+Definition has_payload (t : ty) : bool :=
+  match t with
+  | TArray _ _ | TMap _ _ _ | TStruct _ _ _ | TDisj _ _ | TInter _ _ => true
+  | _ => false
+  end.
+Definition any_visited_disj (f : schema -> disj -> bool) (ss : schemas) : bool :=
+  existsb (fun s =>
+             existsb (fun t => match visit_disj (fun (st : bool) t =>
+                                                   match t with
+                                                   | TDisj _ d => Ok (t, st || f s d)
+                                                   | _ => Ok (t, st)
+                                                   end) false t with
+                               | Ok r => snd r
+                               | _ => false
+                               end)
+                     (s_entrytype s :: map (fun ko => o_type (snd ko)) (s_objects s))) ss.
+Definition fd_shares (ss : schemas) : bool :=
+  any_visited_disj (fun s d =>
+    existsb (fun b => is_ref b && match resolve s b with
+                                  | Ok (Some (TDisj _ d')) => existsb has_payload (d_branches d')
+                                  | _ => false
+                                  end) (d_branches d)) ss.
+Definition dtt_shares (ss : schemas) : bool :=
+  any_visited_disj (fun _ d => has_only_scalar_or_array_or_map (d_branches d)
+                               && existsb has_payload (d_branches d)) ss.
+Definition ri_shares (ss : schemas) : bool :=
+  existsb (fun s => existsb (fun ko => match o_type (snd ko) with
+                                       | TRef _ _ n => match objs_get (s_objects s) n with
+                                                       | Some lo => is_struct (o_type lo)
+                                                       | None => false
+                                                       end
+                                       | _ => false
+                                       end) (s_objects s)) ss.
